@@ -22,6 +22,7 @@
   `(name, base, parameter size)` of `set_function`.
 -/
 import MdProofs.Lemmas.SymBridgeFill
+import MdProofs.Lemmas.SymBridgeWin
 import MdProofs.C05
 namespace MdModel.SymBridge
 open MdModel MdModel.RangeMap
@@ -87,23 +88,11 @@ theorem paramSize_of_agree {wt : Walk.WinTables} {csf : Symbolize.SymFile} {a : 
     | some v => rfl
     | none => rfl
 
-/- FULL STATEMENT (not closed in this round — `walk_fillW_eq_c11`):
-     for `WinRel wins r` (C11's `win4` / `win0` triples `(addr, size, parameter_size)` are the walker
-     model's records that C07's `classifyRec` makes frame data / FPO, in file order), record sizes
-     `< 2^32` and `build r = .ok csf`:  `PsizeAgree (Walk.winTables wins) csf a` for every `a`,
-     hence `(Walk.fillSymbolW sf (funcTable sf) (winTables wins) base instr).map projW = fr.fn`.
-   What is missing is only that table-level fact: both tables are `insertWinAll` + `safeP` over the same
-   `(addr, size)` sequence with different tags (parameter size vs. position); `insertWin` never reads
-   the tag, and `Lemmas/SymBridgeTable.lean` (`safeVecP_sim`, `get_sim`) already covers the `safeP`
-   half for any two valuations in which equal values imply equal ranges (true here: `Rec.enc` is
-   injective on `(addr, size, tag)` for sizes `< 2^32`). The run-time tie covers it meanwhile:
-   ~41 000 `symb xwalk wlk` cases per quick run carry STACK WIN records. -/
-
-/-- **`walk_fillW_eq_c11_partial`** — with STACK WIN records: for ANY walker-model STACK WIN tables
-    `wt`, `fillSymbolW` reports exactly C11's function name and base, exactly C11's parameter size
-    whenever the function is a PUBLIC (never overridden) or nothing is reported, and for a FUNC
-    C11's parameter size provided the two models' STACK WIN lookups agree at the address
-    (`PsizeAgree`, the part left open): frame data > FPO > FUNC on both sides. -/
+/-- `walk_fillW_eq_c11_partial` (kept from the previous round; now a step of `walk_fillW_eq_c11`) —
+    for ANY walker-model STACK WIN tables `wt`, `fillSymbolW` reports exactly C11's function name and
+    base, exactly C11's parameter size whenever the function is a PUBLIC (never overridden) or
+    nothing is reported, and for a FUNC C11's parameter size provided the two models' STACK WIN
+    lookups agree at the address (`PsizeAgree`): frame data > FPO > FUNC on both sides. -/
 theorem walk_fillW_eq_c11_partial {sf : Walk.SymFile} {r : Symbolize.Recs} (hrel : FileRel sf r)
     (wt : Walk.WinTables) {csf : Symbolize.SymFile} (hb : Symbolize.build r = .ok csf)
     {base instr : Nat} (hps : base ≤ instr → PsizeAgree wt csf (instr - base))
@@ -131,6 +120,60 @@ theorem walk_fillW_eq_c11_partial {sf : Walk.SymFile} {r : Symbolize.Recs} (hrel
       · by_cases hlt : instr < base
         · rw [if_pos hlt]; exact hres
         · rw [if_neg hlt, hgn]; exact hres
+
+/-- `PsizeAgree` holds for every related pair: both models build the STACK WIN tables with C08's
+    `insertWinAll` (the parser's overlap repair, which never reads the tag) and `safeP`, from the same
+    `(address, size)` sequence (`Lemmas/SymBridgeWin.lean`) -/
+theorem psizeAgree_of_rel {wins : List Win.Rec} {r : Symbolize.Recs} (hwin : WinRel wins r)
+    (hsz : ∀ w ∈ wins, w.size < 2 ^ 32) (hlen : wins.length ≤ 2 ^ 64)
+    {csf : Symbolize.SymFile} (hb : Symbolize.build r = .ok csf) (a : Nat) :
+    PsizeAgree (Walk.winTables wins) csf a :=
+  psize_agree hwin hsz hlen hb a
+
+/-- **`walk_fillW_eq_c11`** — symbol files WITH STACK WIN records: for every walker-model symbol file
+    `sf` with STACK WIN records `wins` (whole lines, any number ≤ 2^64, any type / program-string
+    flag — C07's `classifyRec` decides frame data / FPO / ignored —, overlapping, nested, truncated
+    by the parser's repair, zero-size, overflowing; sizes `< 2^32` as the `u32` field the parser
+    reads) and every C11 record list `r` describing the same FUNC / PUBLIC records (`FileRel`) and
+    the same STACK WIN records (`WinRel`: C11's `win4` / `win0` are the `(address, size,
+    parameter_size)` of the frame-data / FPO lines, in file order), every module base and
+    instruction address: whenever C11's `fill_symbol` answers, the walker model's `fillSymbolW`
+    over its own tables returns exactly C11's `(name, base, parameter size)` — the parameter size
+    of a FUNC overridden by frame data, else FPO, exactly when C11 overrides it — and nothing when
+    C11 reports no function. -/
+theorem walk_fillW_eq_c11 {sf : Walk.SymFile} {r : Symbolize.Recs} (hrel : FileRel sf r)
+    {wins : List Win.Rec} (hwin : WinRel wins r)
+    (hsz : ∀ w ∈ wins, w.size < 2 ^ 32) (hlen : wins.length ≤ 2 ^ 64)
+    {csf : Symbolize.SymFile} (hb : Symbolize.build r = .ok csf)
+    {base instr : Nat} {fr : Symbolize.Frame} (h : Symbolize.fillSymbol csf base instr = .ok fr) :
+    (Walk.fillSymbolW sf (Walk.funcTable sf) (Walk.winTables wins) base instr).map projW = fr.fn :=
+  walk_fillW_eq_c11_partial hrel _ hb (fun _ => psizeAgree_of_rel hwin hsz hlen hb _) h
+
+/-- the canonical C11 reading of a walker-model symbol file with STACK WIN records -/
+def recsOfW (sf : Walk.SymFile) (wins : List Win.Rec) : Symbolize.Recs :=
+  { recsOf sf with win4 := kindOf isFd wins, win0 := kindOf isFpo wins }
+
+theorem recsOfW_rel (sf : Walk.SymFile) (wins : List Win.Rec) :
+    FileRel sf (recsOfW sf wins) ∧ WinRel wins (recsOfW sf wins) :=
+  ⟨⟨(recsOf_rel sf).funcs, (recsOf_rel sf).pubs⟩, ⟨rfl, rfl⟩⟩
+
+/-- **name and base for ANY STACK WIN records** — for every `FileRel`-related pair, whatever STACK
+    WIN records C11's side carries: the walker model's `fillSymbol` (the one `instrOkOf` runs, and
+    the name / base part of `fillSymbolW`) reports C11's function name and base, none iff none -/
+theorem walk_fill_name_base_eq_c11 {sf : Walk.SymFile} {r : Symbolize.Recs} (hrel : FileRel sf r)
+    {csf : Symbolize.SymFile} (hb : Symbolize.build r = .ok csf) {base instr : Nat}
+    {fr : Symbolize.Frame} (h : Symbolize.fillSymbol csf base instr = .ok fr) :
+    (Walk.fillSymbol sf (Walk.funcTable sf) base instr).map (fun g => (nm g.name, g.base)) =
+      fr.fn.map fun t => (t.1, t.2.1) := by
+  rcases fill_core hrel hb h with ⟨g, w, _, _, _, hw, hcore, hfn⟩ | ⟨_, hres⟩
+  · rw [hw, hfn]
+    simp only [wcore, Prod.mk.injEq] at hcore
+    obtain ⟨c1, _, _, c4⟩ := hcore
+    simp only [Option.map_some, c1, c4]
+  · rw [← hres]
+    cases Walk.fillSymbol sf (Walk.funcTable sf) base instr with
+    | none => rfl
+    | some g => rfl
 
 /-- name and base never depend on the STACK WIN tables: `fillSymbolW` and `fillSymbol` report the
     same function name and base, for any tables -/
@@ -261,6 +304,85 @@ theorem walk_public_rule (sf : Walk.SymFile) (base instr : Nat) (hge : base ≤ 
       · exact hlt
       · exact absurd (hcut.mpr ⟨e, he, hle, by omega⟩) ht
 
+/-- **`walk_public_rule_from_c11`** — the same statement DERIVED from C11's `public_rule` (not
+    re-proved on the walker model): for a `u64` instruction C11's model answers on the canonical
+    related file (`c11_answers`), its answer is the walker model's (`walk_fill_eq_c11`), the two
+    function tables have the same entry ranges and miss together (`ftab_sim`), and C11's
+    `NearestPublic` of the translated records is `WNearest` (`WNearest_iff`). So C11.2 as proved about
+    `MdModel.Symbolize` is literally a theorem about the walker model's `fillSymbol`.
+    (`walk_public_rule` above needs no bound on `instr`; this one has it because C11's model answers
+    only for `u64` instructions.) -/
+theorem walk_public_rule_from_c11 (sf : Walk.SymFile) (base instr : Nat) (hi : instr ≤ U64MAX)
+    (hge : base ≤ instr) (hnf : get (Walk.funcTable sf) (instr - base) = none) :
+    (∃ p, WNearest sf.pubs (instr - base) p ∧
+        (∀ e ∈ Walk.funcTable sf, e.1.lo ≤ instr - base → e.1.lo < p.addr) ∧
+        Walk.fillSymbol sf (Walk.funcTable sf) base instr =
+          some { name := p.name, base := p.addr + base, psize := p.psize }) ∨
+    (Walk.fillSymbol sf (Walk.funcTable sf) base instr = none ∧
+      ((∀ q ∈ sf.pubs, instr - base < q.addr) ∨
+       ∃ p, WNearest sf.pubs (instr - base) p ∧
+         ∃ e ∈ Walk.funcTable sf, e.1.lo ≤ instr - base ∧ p.addr ≤ e.1.lo)) := by
+  obtain ⟨csf, fr, hb, hfr⟩ := c11_answers sf base instr hi
+  have B := Symbolize.build_built hb
+  obtain ⟨t1, _, t3⟩ := ftab_sim (recsOf_rel sf) (instr - base)
+  rw [← B.funcs, ← B.ftab] at t1 t3
+  have heq := walk_fill_eq_c11 (recsOf_rel sf) rfl rfl hb hfr
+  -- C11's table has no entry at the address either
+  have hnf' : Symbolize.funcAt csf.funcs csf.ftab (instr - base) = none := by
+    cases hg : Symbolize.funcAt csf.funcs csf.ftab (instr - base) with
+    | none => rfl
+    | some g =>
+      obtain ⟨i, w, _, hget, _⟩ := t1 g hg
+      rw [hnf] at hget; cases hget
+  -- the entries of the two tables start at the same addresses
+  have hlo1 : ∀ e ∈ Walk.funcTable sf, ∃ e' ∈ csf.ftab, e'.1 = e.1 := by
+    intro e he
+    have : e.1 ∈ (Walk.funcTable sf).map (·.1) := List.mem_map_of_mem he
+    rw [← t3] at this
+    obtain ⟨e', he', h⟩ := List.mem_map.mp this
+    exact ⟨e', he', h⟩
+  have hlo2 : ∀ e' ∈ csf.ftab, ∃ e ∈ Walk.funcTable sf, e.1 = e'.1 := by
+    intro e' he'
+    have : e'.1 ∈ csf.ftab.map (·.1) := List.mem_map_of_mem he'
+    rw [t3] at this
+    obtain ⟨e, he, h⟩ := List.mem_map.mp this
+    exact ⟨e, he, h⟩
+  have hpubs : (recsOf sf).pubs = sf.pubs.map pubOf := rfl
+  rcases Symbolize.public_rule hb hge hfr hnf' with ⟨p, hn, hcut, hfn⟩ | ⟨hfn, hrest⟩
+  · left
+    rw [hpubs] at hn
+    obtain ⟨q, hq, rfl⟩ := List.mem_map.mp hn.1
+    refine ⟨q, (WNearest_iff sf.pubs _ q).mpr ⟨hn, hq⟩, ?_, ?_⟩
+    · intro e he hle
+      obtain ⟨e', he', hee⟩ := hlo1 e he
+      have := hcut e' he' (by rw [hee]; exact hle)
+      rw [hee] at this
+      exact this
+    · rw [hfn] at heq
+      cases hw : Walk.fillSymbol sf (Walk.funcTable sf) base instr with
+      | none => rw [hw] at heq; cases heq
+      | some g =>
+        rw [hw] at heq
+        simp only [Option.map_some, projW, pubOf, Option.some.injEq, Prod.mk.injEq] at heq
+        obtain ⟨c1, c2, c3⟩ := heq
+        obtain ⟨gn, gb, gp⟩ := g
+        simp only at c1 c2 c3
+        rw [nm_inj c1, c2, c3]
+  · right
+    rw [hfn] at heq
+    refine ⟨?_, ?_⟩
+    · cases hw : Walk.fillSymbol sf (Walk.funcTable sf) base instr with
+      | none => rfl
+      | some g => rw [hw] at heq; cases heq
+    · rcases hrest with hall | ⟨p, hn, e', he', hle, hpa⟩
+      · left
+        intro q hq
+        exact hall (pubOf q) (by rw [hpubs]; exact List.mem_map_of_mem hq)
+      · right
+        rw [hpubs] at hn
+        obtain ⟨q, hq, rfl⟩ := List.mem_map.mp hn.1
+        obtain ⟨e, he, hee⟩ := hlo2 e' he'
+        exact ⟨q, (WNearest_iff sf.pubs _ q).mpr ⟨hn, hq⟩, e, he, by rw [hee]; exact hle, by rw [hee]; exact hpa⟩
 /-- **`walk_bases_le`** (C11.3 `bases_le` through the bridge) — "reported function … base addresses
     never exceed the instruction": the base of the function the walker model puts on a frame is at
     most the frame's lookup address (so `function_base ≤ instruction` on every frame) -/
@@ -332,6 +454,327 @@ theorem walk_func_frames_follow_c11 (arch : Walk.Arch) (os : Walk.Os) (w : Walk.
     (recsOf_rel sf) rfl rfl hb hfr
   rw [hg] at this
   exact ⟨i, m, sf, csf, fr, hmod, hm, hsf, hb, hfr, this.symm⟩
+
+/-! ### … with STACK WIN records: the frames of `walk (mkEnvW …)` -/
+
+/-- C11's STACK WIN table builds for ANY records with `u32` sizes (C08 `win_repair_no_panic`) -/
+theorem winTable_ok_any (recs : List Rec) (h : ∀ x ∈ recs, x.size < 2 ^ 32) :
+    ∃ t, Symbolize.winTable recs = .ok t := by
+  obtain ⟨v, hv⟩ := win_repair_no_panic recs (by
+    intro x hx
+    have := h x hx
+    have e : U32MAX = 2 ^ 32 - 1 := by decide
+    omega)
+  have hinv : WInv (fun _ => True) v :=
+    insertWinAll_inv recs (fun x hx => ⟨h x hx, trivial⟩) [] v (fun p hp => by cases hp) hv
+  unfold Symbolize.winTable
+  rw [hv]
+  refine ⟨_, safeP_ok _ ?_⟩
+  intro e he
+  obtain ⟨p, hp, rfl⟩ := List.mem_map.mp he
+  have := mkRange_wf (hinv p hp).1
+  exact ⟨this.1, this.2.1⟩
+
+/-- C11's `SymbolParser::finish` builds every file whose STACK WIN sizes fit `u32` (C11's `build_ok`
+    is for files without STACK WIN records) -/
+theorem build_okW (r : Symbolize.Recs) (h4 : ∀ x ∈ r.win4, x.size < 2 ^ 32)
+    (h0 : ∀ x ∈ r.win0, x.size < 2 ^ 32) : ∃ csf, Symbolize.build r = .ok csf := by
+  obtain ⟨t4, e4⟩ := winTable_ok_any _ h4
+  obtain ⟨t0, e0⟩ := winTable_ok_any _ h0
+  unfold Symbolize.build
+  simp only [Symbolize.finishAll_ok, safeP_ok _ (Symbolize.funcInput_wf _), e4, e0]
+  exact ⟨_, rfl⟩
+
+/-- C11 answers on the canonical related record list WITH the STACK WIN records -/
+theorem c11_answersW (sf : Walk.SymFile) (wins : List Win.Rec) (hsz : ∀ x ∈ wins, x.size < 2 ^ 32)
+    (base instr : Nat) (hi : instr ≤ U64MAX) :
+    ∃ csf fr, Symbolize.build (recsOfW sf wins) = .ok csf ∧ Symbolize.fillSymbol csf base instr = .ok fr := by
+  have hk : ∀ k, ∀ x ∈ kindOf k wins, x.size < 2 ^ 32 := by
+    intro k x hx
+    simp only [kindOf, List.mem_filterMap] at hx
+    obtain ⟨w, hw, hx⟩ := hx
+    split at hx
+    · cases hx; exact hsz w hw
+    · cases hx
+  obtain ⟨csf, hb⟩ := build_okW (recsOfW sf wins) (hk isFd) (hk isFpo)
+  obtain ⟨fr, hfr⟩ := Symbolize.fill_no_panic hb base instr hi (by
+    intro f hf
+    have hf' : f ∈ (recsOf sf).funcs := hf
+    simp only [recsOf, List.mem_map] at hf'
+    obtain ⟨w, _, rfl⟩ := hf'
+    show ([] : List Symbolize.Inl).length + 1 < U32MAX
+    decide)
+  exact ⟨csf, fr, hb, hfr⟩
+
+theorem winTables_nil : Walk.winTables [] = Walk.WinTables.empty := by
+  have hnil : Win.buildTable [] = .ok [] := by
+    unfold Win.buildTable
+    simp only [List.map_nil, insertWinAll, List.reverse_nil]
+    rw [safeP_ok [] (by intro e he; cases he)]
+    simp [safeVecP, sortEntries, pass, keep]
+  have e4 : wFd [] = [] := rfl
+  have e0 : wFpo [] = [] := rfl
+  rw [winTables_eq, e4, e0, hnil]
+  rfl
+
+/-- the STACK WIN records of module `i` (none when the list is shorter) -/
+def winsAt (wins : List (List Win.Rec)) (i : Nat) : List Win.Rec := (wins[i]?).getD []
+
+/-- `fill_source_line_info` of `mkEnvW`, spelled out: the module is `module_at_address`'s, and with
+    a symbol file the function is `fillSymbolW` over the file's own tables -/
+theorem symbOfW_spec (w : Walk.World) (wins : List (List Win.Rec)) (instr : Nat) :
+    let r := Walk.symbOfW w (Walk.modTable w.mods) (w.syms.map fun s => match s with
+        | some sf => Walk.funcTable sf
+        | none => []) (wins.map Walk.winTables) instr
+    ∀ i, r.1 = some i →
+      (∀ m sf, w.mods[i]? = some m → w.syms[i]? = some (some sf) →
+        r.2 = Walk.fillSymbolW sf (Walk.funcTable sf) (Walk.winTables (winsAt wins i)) m.base instr) ∧
+      (∀ g, r.2 = some g → ∃ m sf, w.mods[i]? = some m ∧ w.syms[i]? = some (some sf)) := by
+  intro r i hi
+  have hr : r = Walk.symbOfW w (Walk.modTable w.mods) (w.syms.map fun s => match s with
+        | some sf => Walk.funcTable sf
+        | none => []) (wins.map Walk.winTables) instr := rfl
+  unfold Walk.symbOfW at hr
+  cases hma : Walk.moduleAt (Walk.modTable w.mods) instr with
+  | none => rw [hma] at hr; rw [hr] at hi; cases hi
+  | some j =>
+    rw [hma] at hr
+    simp only at hr
+    have hwt : ((wins.map Walk.winTables)[j]?).getD Walk.WinTables.empty =
+        Walk.winTables (winsAt wins j) := by
+      unfold winsAt
+      rw [List.getElem?_map]
+      cases wins[j]? with
+      | none => exact winTables_nil.symm
+      | some ws => rfl
+    rw [hwt] at hr
+    have hj : j = i := by
+      rw [hr] at hi
+      split at hi <;> (simp only [Option.some.injEq] at hi; exact hi)
+    subst hj
+    constructor
+    · intro m sf hm hsf
+      rw [hr]
+      simp only [hm, hsf, Option.join_some, List.getElem?_map, Option.map_some]
+    · intro g hg
+      rw [hr] at hg
+      split at hg
+      · rename_i m sf ft hm hsf hft
+        refine ⟨m, sf, hm, ?_⟩
+        cases hq : w.syms[j]? with
+        | none => rw [hq] at hsf; cases hsf
+        | some o => rw [hq] at hsf; simp only [Option.join_some] at hsf; rw [hsf]
+      · cases hg
+
+/-- **`walk_frames_follow_c11W`** — the same for walks over symbol files WITH STACK WIN records
+    (`mkEnvW`: x86 frames found by STACK WIN, the parameter size of a FUNC taken from the frame-data /
+    FPO record at the address): for every architecture, OS, module list with symbol records and per
+    module STACK WIN lines, stack memory and context, every frame of `walk (mkEnvW …)` whose module
+    `m` has a symbol file `sf` carries EXACTLY `fr.fn` of C11's `fill_symbol` — name, base, parameter
+    size; none iff none — for every C11 record list describing `sf`'s FUNC / PUBLIC records and the
+    module's STACK WIN records (`u32` sizes, at most `2^64` records). Together with
+    `walk_frames_follow_c11` this covers both environments C14's `stacks_are_walks` uses. -/
+theorem walk_frames_follow_c11W (arch : Walk.Arch) (os : Walk.Os) (w : Walk.World)
+    (wins : List (List Win.Rec)) (mem0 : Walk.Mem) (mem : Option Walk.Mem) (ctx : Walk.Ctx) :
+    ∀ f ∈ Walk.walk (Walk.mkEnvW arch os w wins mem0) mem ctx,
+      ∀ i m sf, f.module = some i → w.mods[i]? = some m → w.syms[i]? = some (some sf) →
+        ∀ (r : Symbolize.Recs) (csf : Symbolize.SymFile) (fr : Symbolize.Frame),
+          FileRel sf r → WinRel (winsAt wins i) r →
+          (∀ x ∈ winsAt wins i, x.size < 2 ^ 32) → (winsAt wins i).length ≤ 2 ^ 64 →
+          Symbolize.build r = .ok csf →
+          Symbolize.fillSymbol csf m.base f.instruction = .ok fr →
+          f.func.map projW = fr.fn := by
+  intro f hf i m sf hmod hm hsf r csf fr hrel hwin hsz hlen hb hfr
+  obtain ⟨h1, h2⟩ := Walk.walk_symbolised _ _ _ f hf
+  have e : (Walk.mkEnvW arch os w wins mem0).symb = Walk.symbOfW w (Walk.modTable w.mods)
+      (w.syms.map fun s => match s with
+        | some sf => Walk.funcTable sf
+        | none => []) (wins.map Walk.winTables) := rfl
+  rw [e] at h1 h2
+  rw [h1] at hmod
+  obtain ⟨s1, _⟩ := symbOfW_spec w wins f.instruction i hmod
+  rw [hmod, s1 m sf hm hsf] at h2
+  simp only [Option.isSome_some, if_true] at h2
+  rw [h2]
+  exact walk_fillW_eq_c11 hrel hwin hsz hlen hb hfr
+
+/-- starting from a frame of `walk (mkEnvW …)` that carries a function: module, symbol file, built
+    C11 file (with the module's STACK WIN records) and C11's answer exist, and the frame carries
+    exactly that answer -/
+theorem walk_func_frames_follow_c11W (arch : Walk.Arch) (os : Walk.Os) (w : Walk.World)
+    (wins : List (List Win.Rec)) (mem0 : Walk.Mem) (mem : Option Walk.Mem) (ctx : Walk.Ctx)
+    (hsz : ∀ ws ∈ wins, ∀ x ∈ ws, x.size < 2 ^ 32) (hlen : ∀ ws ∈ wins, ws.length ≤ 2 ^ 64) :
+    ∀ f ∈ Walk.walk (Walk.mkEnvW arch os w wins mem0) mem ctx, ∀ g, f.func = some g →
+      f.instruction ≤ U64MAX →
+      ∃ i m sf csf fr, f.module = some i ∧ w.mods[i]? = some m ∧ w.syms[i]? = some (some sf) ∧
+        Symbolize.build (recsOfW sf (winsAt wins i)) = .ok csf ∧
+        Symbolize.fillSymbol csf m.base f.instruction = .ok fr ∧
+        fr.fn = some (nm g.name, g.base, g.psize) := by
+  intro f hf g hg hi
+  obtain ⟨h1, h2⟩ := Walk.walk_symbolised _ _ _ f hf
+  have e : (Walk.mkEnvW arch os w wins mem0).symb = Walk.symbOfW w (Walk.modTable w.mods)
+      (w.syms.map fun s => match s with
+        | some sf => Walk.funcTable sf
+        | none => []) (wins.map Walk.winTables) := rfl
+  rw [e] at h1 h2
+  rw [hg] at h2
+  have hsz' : ∀ i, ∀ x ∈ winsAt wins i, x.size < 2 ^ 32 := by
+    intro i x hx
+    unfold winsAt at hx
+    cases hq : wins[i]? with
+    | none => rw [hq] at hx; cases hx
+    | some ws => rw [hq] at hx; exact hsz ws (List.mem_of_getElem? hq) x hx
+  have hlen' : ∀ i, (winsAt wins i).length ≤ 2 ^ 64 := by
+    intro i
+    unfold winsAt
+    cases hq : wins[i]? with
+    | none => simp
+    | some ws => exact hlen ws (List.mem_of_getElem? hq)
+  split at h2
+  · rename_i hsome
+    obtain ⟨i, hi'⟩ := Option.isSome_iff_exists.mp hsome
+    obtain ⟨_, s2⟩ := symbOfW_spec w wins f.instruction i hi'
+    obtain ⟨m, sf, hm, hsf⟩ := s2 g h2.symm
+    have hmod : f.module = some i := by rw [h1]; exact hi'
+    obtain ⟨csf, fr, hb, hfr⟩ := c11_answersW sf (winsAt wins i) (hsz' i) m.base f.instruction hi
+    have := walk_frames_follow_c11W arch os w wins mem0 mem ctx f hf i m sf hmod hm hsf _ csf fr
+      (recsOfW_rel sf _).1 (recsOfW_rel sf _).2 (hsz' i) (hlen' i) hb hfr
+    rw [hg] at this
+    exact ⟨i, m, sf, csf, fr, hmod, hm, hsf, hb, hfr, this.symm⟩
+  · cases h2
+
+/-! ## 4. the by-symbols validation of scanned return addresses, through C11 -/
+
+/-- what C11's `fill_symbol` must report for a scanned word to pass
+    `instruction_seems_valid_by_symbols` (minidump-unwind/src/lib.rs:825-906): a function with a
+    non-empty name (`DummyFrame::set_function`: `has_name = !name.is_empty()`) -/
+def C11Named (fr : Symbolize.Frame) : Prop := ∃ n b p, fr.fn = some (n, b, p) ∧ n ≠ []
+
+/-- the function tables `mkEnv` / `mkEnvW` hand to `instrOkOf` -/
+def ftblsOf (w : Walk.World) : List (List Entry) :=
+  w.syms.map fun s => match s with
+    | some sf => Walk.funcTable sf
+    | none => []
+
+/-- the scan validation of both environments is `instrOkOf` over the modules' own function tables -/
+theorem mkEnv_instrOk (arch : Walk.Arch) (os : Walk.Os) (w : Walk.World) (wins : List (List Win.Rec))
+    (mem0 : Walk.Mem) :
+    (Walk.mkEnv arch os w mem0).instrOk = Walk.instrOkOf w (Walk.modTable w.mods) (ftblsOf w) ∧
+    (Walk.mkEnvW arch os w wins mem0).instrOk = Walk.instrOkOf w (Walk.modTable w.mods) (ftblsOf w) :=
+  ⟨rfl, rfl⟩
+
+theorem nm_empty : nm "" = [] := by decide
+
+/-- **`instr_ok_follows_c11`** — the by-symbols validation of a scanned word `ip` (the walker model's
+    `instrOkOf`, used by `mkEnv` and `mkEnvW` for every scan candidate), stated through C11's
+    `fill_symbol`. With `a = ip - 1` (`saturating_sub(1)`):
+    * a word is accepted only if `a ≠ 0` and a module of the list covers `a`;
+    * if that module has no symbol file, the word is accepted;
+    * if it has the symbol file `sf`, the word is accepted IFF C11's `fill_symbol` — on ANY C11
+      record list describing `sf`'s FUNC / PUBLIC records (any sub-records, any STACK WIN records),
+      at the module's base and `a` — reports a function with a non-empty name (`C11Named`).
+    So C11's `func_covers` / `public_rule` say exactly which scanned words pass: those for which a
+    FUNC of the table contains `a - base`, or the nearest preceding PUBLIC is not cut off by a
+    FUNC — with a non-empty name. -/
+theorem instr_ok_follows_c11 (w : Walk.World) (ip : Nat) :
+    (Walk.instrOkOf w (Walk.modTable w.mods) (ftblsOf w) ip = true →
+      ip - 1 ≠ 0 ∧ ∃ i m, Walk.moduleAt (Walk.modTable w.mods) (ip - 1) = some i ∧
+        w.mods[i]? = some m ∧ m.base ≤ ip - 1 ∧ ip - 1 < m.base + m.size) ∧
+    (∀ i, ip - 1 ≠ 0 → Walk.moduleAt (Walk.modTable w.mods) (ip - 1) = some i →
+      ((w.syms[i]?).join = none → Walk.instrOkOf w (Walk.modTable w.mods) (ftblsOf w) ip = true) ∧
+      (∀ m sf, w.mods[i]? = some m → w.syms[i]? = some (some sf) →
+        ∀ (r : Symbolize.Recs) (csf : Symbolize.SymFile) (fr : Symbolize.Frame),
+          FileRel sf r → Symbolize.build r = .ok csf →
+          Symbolize.fillSymbol csf m.base (ip - 1) = .ok fr →
+          (Walk.instrOkOf w (Walk.modTable w.mods) (ftblsOf w) ip = true ↔ C11Named fr))) := by
+  constructor
+  · intro h
+    unfold Walk.instrOkOf at h
+    simp only at h
+    by_cases h0 : ip - 1 = 0
+    · rw [if_pos h0] at h; cases h
+    · refine ⟨h0, ?_⟩
+      rw [if_neg h0] at h
+      cases hma : Walk.moduleAt (Walk.modTable w.mods) (ip - 1) with
+      | none => rw [hma] at h; cases h
+      | some i =>
+        obtain ⟨m, hm, h1, h2⟩ := Walk.moduleAt_sound _ _ _ hma
+        exact ⟨i, m, rfl, hm, h1, h2⟩
+  · intro i h0 hma
+    obtain ⟨m, hm, _, _⟩ := Walk.moduleAt_sound _ _ _ hma
+    constructor
+    · intro hj
+      unfold Walk.instrOkOf
+      simp only [if_neg h0, hma, hm, hj]
+    · intro m' sf hm' hsf r csf fr hrel hb hfr
+      rw [hm] at hm'
+      cases hm'
+      have hname := walk_fill_name_base_eq_c11 hrel hb hfr
+      unfold Walk.instrOkOf ftblsOf
+      simp only [if_neg h0, hma, hm, hsf, Option.join_some, List.getElem?_map, Option.map_some]
+      cases hw : Walk.fillSymbol sf (Walk.funcTable sf) m.base (ip - 1) with
+      | none =>
+        rw [hw] at hname
+        simp only [Option.map_none] at hname
+        constructor
+        · intro h; cases h
+        · rintro ⟨n, b, p, hfn, _⟩
+          rw [hfn] at hname; cases hname
+      | some g =>
+        rw [hw] at hname
+        simp only [Option.map_some] at hname
+        simp only [decide_eq_true_eq]
+        constructor
+        · intro hne
+          cases hfn : fr.fn with
+          | none => rw [hfn] at hname; cases hname
+          | some t =>
+            obtain ⟨n, b, p⟩ := t
+            rw [hfn] at hname
+            simp only [Option.map_some, Option.some.injEq, Prod.mk.injEq] at hname
+            refine ⟨n, b, p, hfn, ?_⟩
+            rw [← hname.1, ← nm_empty]
+            exact fun e => hne (nm_inj e)
+        · rintro ⟨n, b, p, hfn, hn⟩ he
+          rw [hfn] at hname
+          simp only [Option.map_some, Option.some.injEq, Prod.mk.injEq] at hname
+          rw [he, nm_empty] at hname
+          exact hn hname.1.symm
+
+/-- an accepted scanned word in a module with symbols, in C11's terms (`func_covers` through the
+    bridge): `ip - 1` lies in a FUNC record of the file with a valid range (its name non-empty), or
+    no FUNC of the table contains it and a PUBLIC with a non-empty name lies at or below it -/
+theorem instr_ok_covered (w : Walk.World) (ip i : Nat) (m : Walk.Module) (sf : Walk.SymFile)
+    (hip : ip - 1 ≤ U64MAX)
+    (hok : Walk.instrOkOf w (Walk.modTable w.mods) (ftblsOf w) ip = true)
+    (hma : Walk.moduleAt (Walk.modTable w.mods) (ip - 1) = some i)
+    (hm : w.mods[i]? = some m) (hsf : w.syms[i]? = some (some sf)) :
+    m.base ≤ ip - 1 ∧
+    ((∃ f ∈ sf.funcs, f.name ≠ "" ∧ 0 < f.size ∧ f.addr + f.size ≤ U64MAX ∧
+        f.addr ≤ ip - 1 - m.base ∧ ip - 1 - m.base < f.addr + f.size) ∨
+     (RangeMap.get (Walk.funcTable sf) (ip - 1 - m.base) = none ∧
+        ∃ p ∈ sf.pubs, p.name ≠ "" ∧ p.addr ≤ ip - 1 - m.base)) := by
+  obtain ⟨h0, _⟩ := (instr_ok_follows_c11 w ip).1 hok
+  obtain ⟨csf, fr, hb, hfr⟩ := c11_answers sf m.base (ip - 1) hip
+  have hnamed := ((((instr_ok_follows_c11 w ip).2 i h0 hma).2 m sf hm hsf _ csf fr
+    (recsOf_rel sf) hb hfr).mp hok)
+  obtain ⟨n, b, p, hfn, hn⟩ := hnamed
+  have heq := walk_fill_eq_c11 (recsOf_rel sf) rfl rfl hb hfr
+  rw [hfn] at heq
+  cases hw : Walk.fillSymbol sf (Walk.funcTable sf) m.base (ip - 1) with
+  | none => rw [hw] at heq; cases heq
+  | some g =>
+    rw [hw] at heq
+    simp only [Option.map_some, projW, Option.some.injEq, Prod.mk.injEq] at heq
+    have hgn : g.name ≠ "" := by
+      intro e
+      rw [e, nm_empty] at heq
+      exact hn heq.1.symm
+    obtain ⟨hge, hc⟩ := walk_func_covers sf m.base (ip - 1) hip hw
+    refine ⟨hge, ?_⟩
+    rcases hc with ⟨f, hf, c1, _, c3, c4, c5, c6⟩ | ⟨hnone, q, hq, c1, _, _, c4⟩
+    · exact .inl ⟨f, hf, by rw [← c1]; exact hgn, c3, c4, c5, c6⟩
+    · exact .inr ⟨hnone, q, hq, by rw [← c1]; exact hgn, c4⟩
 
 /-! ## non-vacuity: a concrete file, both models computed -/
 
@@ -418,5 +861,119 @@ example (csf : Symbolize.SymFile) (hb : Symbolize.build exRecs = .ok csf) (fr : 
   have := hw 0 ⟨0x1000, 0x100, "m"⟩ exSf h1 rfl rfl exRecs csf fr ex_rel rfl rfl hb (by rw [hi]; exact h)
   rw [h2] at this
   exact ⟨h1, h2, this.symm⟩
+
+/-! ### non-vacuity, STACK WIN: frame data over FPO over FUNC, a PUBLIC left alone -/
+
+/-- `STACK WIN 4 10 8 … 8 … 1 $eip 4 + ^ =` (frame data, parameter size 8),
+    `STACK WIN 0 10 20 … c … 0 1` (FPO, parameter size 12), and a line whose type and
+    `has_program_string` disagree (ignored by the parser) -/
+def exWins : List Win.Rec :=
+  [ ⟨'4', 0x10, 8, 8, 0, 0, '1', "$eip 4 + ^ =".toList⟩,
+    ⟨'0', 0x10, 0x20, 12, 0, 0, '0', ['1']⟩,
+    ⟨'4', 0x10, 0x20, 16, 0, 0, '0', ['1']⟩ ]
+
+/-- `exRecs` (with its line / INLINE sub-records) plus C11's reading of those STACK WIN lines -/
+def exRecsW : Symbolize.Recs := { exRecs with win4 := [⟨0x10, 8, 8⟩], win0 := [⟨0x10, 0x20, 12⟩] }
+
+theorem ex_winRel : WinRel exWins exRecsW := ⟨by decide, by decide⟩
+
+theorem ex_relW : FileRel exSf exRecsW := ⟨by decide, by decide⟩
+
+theorem ex_winTables : Walk.winTables exWins =
+    { typed := exWins.map Win.classifyRec,
+      fd := [(⟨0x10, 0x17⟩, (Rec.mk 0x10 8 0).enc)], fpo := [(⟨0x10, 0x2f⟩, (Rec.mk 0x10 0x20 1).enc)] } := by
+  have e4 : wFd exWins = [(0x10, 8, 0)] := by decide
+  have e0 : wFpo exWins = [(0x10, 0x20, 1)] := by decide
+  have b4 : Win.buildTable [(0x10, 8, 0)] = .ok [(⟨0x10, 0x17⟩, (Rec.mk 0x10 8 0).enc)] := by
+    unfold Win.buildTable
+    simp [insertWinAll, insertWin, mkRange, U64MAX, safeP, tryFromIter, safeVecP, sortEntries, pass, keep, disc]
+  have b0 : Win.buildTable [(0x10, 0x20, 1)] = .ok [(⟨0x10, 0x2f⟩, (Rec.mk 0x10 0x20 1).enc)] := by
+    unfold Win.buildTable
+    simp [insertWinAll, insertWin, mkRange, U64MAX, safeP, tryFromIter, safeVecP, sortEntries, pass, keep, disc]
+  rw [winTables_eq, e4, e0, b4, b0]
+
+/-- the walker model computed: at 0x18 only the FPO record covers ⇒ 12; at 0x10 frame data wins ⇒ 8
+    (the FUNC says 4); the PUBLIC at 0x0c keeps its own 0 -/
+theorem ex_walkW :
+    Walk.fillSymbolW exSf (Walk.funcTable exSf) (Walk.winTables exWins) 0x1000 0x1018 = some ⟨"f", 0x1010, 12⟩ ∧
+    Walk.fillSymbolW exSf (Walk.funcTable exSf) (Walk.winTables exWins) 0x1000 0x1010 = some ⟨"f", 0x1010, 8⟩ ∧
+    Walk.fillSymbolW exSf (Walk.funcTable exSf) (Walk.winTables exWins) 0x1000 0x100c = some ⟨"p", 0x1008, 0⟩ := by
+  rw [ex_winTables, ex_funcTable]
+  refine ⟨by decide, by decide, by decide⟩
+
+/-- `walk_fillW_eq_c11` on the concrete file: every hypothesis holds, C11's model (records WITH
+    sub-records and STACK WIN triples) answers exactly what the walker model computed -/
+example (csf : Symbolize.SymFile) (hb : Symbolize.build exRecsW = .ok csf) (fr1 fr2 fr3 : Symbolize.Frame)
+    (h1 : Symbolize.fillSymbol csf 0x1000 0x1018 = .ok fr1)
+    (h2 : Symbolize.fillSymbol csf 0x1000 0x1010 = .ok fr2)
+    (h3 : Symbolize.fillSymbol csf 0x1000 0x100c = .ok fr3) :
+    fr1.fn = some ([102], 0x1010, 12) ∧ fr2.fn = some ([102], 0x1010, 8) ∧ fr3.fn = some ([112], 0x1008, 0) := by
+  have hs : ∀ w ∈ exWins, w.size < 2 ^ 32 := by decide
+  have hl : exWins.length ≤ 2 ^ 64 := by decide
+  obtain ⟨w1, w2, w3⟩ := ex_walkW
+  rw [← walk_fillW_eq_c11 ex_relW ex_winRel hs hl hb h1, ← walk_fillW_eq_c11 ex_relW ex_winRel hs hl hb h2,
+    ← walk_fillW_eq_c11 ex_relW ex_winRel hs hl hb h3, w1, w2, w3]
+  decide
+
+/-- … and such a built file and answer exist -/
+example : ∃ csf fr, Symbolize.build exRecsW = .ok csf ∧ Symbolize.fillSymbol csf 0x1000 0x1018 = .ok fr := by
+  obtain ⟨csf, hb⟩ := build_okW exRecsW (by decide) (by decide)
+  obtain ⟨fr, hfr⟩ := Symbolize.fill_no_panic hb 0x1000 0x1018 (by decide)
+    (by intro f hf
+        have hf' : f ∈ exRecs.funcs := hf
+        simp only [exRecs, List.mem_singleton] at hf'; subst hf'; decide)
+  exact ⟨csf, fr, hb, hfr⟩
+
+/-- a walk of `mkEnvW` (module 0 with `exSf` and `exWins`): the context frame at 0x1018 carries
+    `f @ 0x1010` with the FPO record's parameter size 12 — by `walk_frames_follow_c11W` C11's answer
+    on `exRecsW` -/
+example (csf : Symbolize.SymFile) (hb : Symbolize.build exRecsW = .ok csf) (fr : Symbolize.Frame)
+    (h : Symbolize.fillSymbol csf 0x1000 0x1018 = .ok fr) :
+    ∀ f ∈ Walk.walk (Walk.mkEnvW .amd64 .other exWorld [exWins] ⟨0, #[], false⟩) none { ip := 0x1018, sp := 0 },
+      f.module = some 0 ∧ f.func = some ⟨"f", 0x1010, 12⟩ ∧ fr.fn = some ([102], 0x1010, 12) := by
+  intro f hf
+  have hw := walk_frames_follow_c11W .amd64 .other exWorld [exWins] ⟨0, #[], false⟩ none { ip := 0x1018, sp := 0 } f hf
+  obtain ⟨h1, h2⟩ := Walk.walk_symbolised _ _ _ f hf
+  have hi : f.instruction = 0x1018 := by
+    simp only [Walk.walk, Option.bind_none, List.mem_singleton] at hf
+    subst hf; rfl
+  have e : (Walk.mkEnvW .amd64 .other exWorld [exWins] ⟨0, #[], false⟩).symb 0x1018 =
+      (some 0, Walk.fillSymbolW exSf (Walk.funcTable exSf) (Walk.winTables exWins) 0x1000 0x1018) := by
+    show Walk.symbOfW exWorld (Walk.modTable exWorld.mods) _ _ 0x1018 = _
+    rw [ex_modTable]
+    rfl
+  rw [hi, e] at h1 h2
+  simp only [Option.isSome_some, if_true, ex_walkW.1] at h2
+  have := hw 0 ⟨0x1000, 0x100, "m"⟩ exSf h1 rfl rfl exRecsW csf fr ex_relW ex_winRel
+    (by decide) (by decide) hb (by rw [hi]; exact h)
+  rw [h2] at this
+  exact ⟨h1, h2, this.symm⟩
+
+/-! ### non-vacuity, scan validation -/
+
+theorem ex_instrOk :
+    Walk.instrOkOf exWorld (Walk.modTable exWorld.mods) (ftblsOf exWorld) 0x1019 = true ∧
+    Walk.instrOkOf exWorld (Walk.modTable exWorld.mods) (ftblsOf exWorld) 0x1035 = false ∧
+    Walk.instrOkOf exWorld (Walk.modTable exWorld.mods) (ftblsOf exWorld) 0x2001 = false := by
+  have e : ftblsOf exWorld = [Walk.funcTable exSf] := rfl
+  rw [e, ex_modTable, ex_funcTable]
+  refine ⟨by decide, by decide, by decide⟩
+
+/-- `instr_ok_follows_c11` on the concrete module: the scanned word 0x1019 (inside the FUNC) passes
+    and C11 reports a named function there; 0x1035 (the PUBLIC cut off by the FUNC) is rejected and
+    C11 reports nothing there -/
+example (csf : Symbolize.SymFile) (hb : Symbolize.build exRecs = .ok csf) (fr1 fr2 : Symbolize.Frame)
+    (h1 : Symbolize.fillSymbol csf 0x1000 0x1018 = .ok fr1)
+    (h2 : Symbolize.fillSymbol csf 0x1000 0x1034 = .ok fr2) : C11Named fr1 ∧ ¬ C11Named fr2 := by
+  have m1 : Walk.moduleAt (Walk.modTable exWorld.mods) (0x1019 - 1) = some 0 := by rw [ex_modTable]; decide
+  have m2 : Walk.moduleAt (Walk.modTable exWorld.mods) (0x1035 - 1) = some 0 := by rw [ex_modTable]; decide
+  have a1 := ((instr_ok_follows_c11 exWorld 0x1019).2 0 (by decide) m1).2 ⟨0x1000, 0x100, "m"⟩ exSf rfl rfl
+    exRecs csf fr1 ex_rel hb h1
+  have a2 := ((instr_ok_follows_c11 exWorld 0x1035).2 0 (by decide) m2).2 ⟨0x1000, 0x100, "m"⟩ exSf rfl rfl
+    exRecs csf fr2 ex_rel hb h2
+  refine ⟨a1.mp ex_instrOk.1, fun hn => ?_⟩
+  have := a2.mpr hn
+  rw [ex_instrOk.2.1] at this
+  cases this
 
 end MdModel.SymBridge
